@@ -207,6 +207,7 @@ Qed.
 Section Frozen.
   Variable P : params.
   Variable pay : Z -> Z.
+  Variable fetch : gstate -> Z -> option cqc.
   Notation hon := (honestb P).
   Notation cfg := (pcfg P).
 
@@ -274,6 +275,7 @@ End Frozen.
 Section RoundPrims.
   Variable P : params.
   Variable pay : Z -> Z.
+  Variable fetch : gstate -> Z -> option cqc.
   Notation hon := (honestb P).
   Notation cfg := (pcfg P).
 
@@ -327,18 +329,15 @@ Section RoundPrims.
     apply RPpropose; assumption.
   Qed.
 
-  Lemma sync1_prim n s0 t k : rprim n s0 t (sync1 P t k).
+  Lemma sync1_prim f n s0 t k : rprim n s0 t (sync1 P f t k).
   Proof.
-    unfold sync1. destruct (live_node P t k) eqn:E; [|apply RPid]. cbv zeta.
-    destruct (find_cert P t (r_store_next (n_live (g_node t k)))) as [q|] eqn:Ef; [|apply RPid].
-    destruct (someone_queued _ _ _); [|apply RPid].
-    destruct (find_cert_spec P t _ q Ef) as (H1 & H2 & H3).
-    apply RPinput; [exact E|]. exists q. auto.
+    destruct (sync1_good P f t k) as [E|(q & H1 & H2 & H3 & H4 & H5 & E)]; rewrite E; [apply RPid|].
+    apply RPinput; [unfold live_node; rewrite H1, H2; reflexivity|]. exists q. auto.
   Qed.
 
-  Lemma sync_node_star n s0 fuel : forall t k, rstar n s0 t (sync_node P fuel t k).
+  Lemma sync_node_star f n s0 fuel : forall t k, rstar n s0 t (sync_node P f fuel t k).
   Proof.
-    induction fuel as [|f IH]; intros t k; cbn [sync_node]; [apply RSrefl|].
+    induction fuel as [|fu IH]; intros t k; cbn [sync_node]; [apply RSrefl|].
     eapply rstar_trans; [apply rstar_one, sync1_prim|apply IH].
   Qed.
 
@@ -350,9 +349,9 @@ Section RoundPrims.
 
   (* the part of a round after the restarts, as a sequence of primitive transitions *)
   Definition round_body (s0 : gstate) : gstate :=
-    timers_all P s0 (sync_all P (propose_all P pay (deliver_all P s0))).
+    timers_all P s0 (sync_all P fetch (propose_all P pay (deliver_all P s0))).
 
-  Lemma sync_round_body s : sync_round P pay s = round_body (revive_all P s).
+  Lemma sync_round_body s : sync_round P pay fetch s = round_body (revive_all P s).
   Proof. reflexivity. Qed.
 
   Lemma round_body_star s0 : rstar (length (g_soup s0)) s0 s0 (round_body s0).
@@ -405,6 +404,7 @@ Section RoundInv.
   Variable P : params.
   Hypothesis HP : params_ok P.
   Variable pay : Z -> Z.
+  Variable fetch : gstate -> Z -> option cqc.
   Notation hon := (honestb P).
   Notation cfg := (pcfg P).
   Notation W := (cweights (p_C P)).
@@ -518,6 +518,7 @@ Section RoundViews.
   Variable P : params.
   Hypothesis HP : params_ok P.
   Variable pay : Z -> Z.
+  Variable fetch : gstate -> Z -> option cqc.
   Notation hon := (honestb P).
   Notation cfg := (pcfg P).
 
@@ -780,10 +781,11 @@ Section ThreeRounds.
   Variable P : params.
   Hypothesis HP : params_ok P.
   Variable pay : Z -> Z.
+  Variable fetch : gstate -> Z -> option cqc.
   Notation hon := (honestb P).
   Notation cfg := (pcfg P).
 
-  Lemma round_RInv s0 : preach P s0 -> RInv P (g_soup s0) (round_body P pay s0).
+  Lemma round_RInv s0 : preach P s0 -> RInv P (g_soup s0) (round_body P pay fetch s0).
   Proof.
     intros Hr. eapply (rstar_inv P (length (g_soup s0)) s0 (RInv P (g_soup s0))).
     - intros t t'. apply RInv_prim.
@@ -791,7 +793,7 @@ Section ThreeRounds.
     - apply round_body_star.
   Qed.
 
-  Lemma round_soup s : exists l, g_soup (sync_round P pay s) = g_soup s ++ l.
+  Lemma round_soup s : exists l, g_soup (sync_round P pay fetch s) = g_soup s ++ l.
   Proof.
     unfold sync_round. cbv zeta.
     destruct (fold_soup_ext (revive1 P) (honest_keys P) (revive1_soup P) s) as [l0 Hl0]. fold (revive_all P s) in Hl0.
@@ -801,13 +803,13 @@ Section ThreeRounds.
       - eauto.
       - rewrite absorb_soup, IH, <- app_assoc. eauto.
       - cbn [add_msg g_soup]. rewrite IH, <- app_assoc. eauto. }
-    destruct (Hstar _ _ _ _ (round_body_star P pay (revive_all P s))) as [l1 Hl1].
-    fold (round_body P pay (revive_all P s)). rewrite Hl1, Hl0, <- app_assoc. eauto.
+    destruct (Hstar _ _ _ _ (round_body_star P pay fetch (revive_all P s))) as [l1 Hl1].
+    fold (round_body P pay fetch (revive_all P s)). rewrite Hl1, Hl0, <- app_assoc. eauto.
   Qed.
 
   (* views of a node that stays up do not decrease during the round *)
-  Lemma round_view_mono s0 k : up (round_body P pay s0) k ->
-    up s0 k /\ hview s0 k <= hview (round_body P pay s0) k.
+  Lemma round_view_mono s0 k : up (round_body P pay fetch s0) k ->
+    up s0 k /\ hview s0 k <= hview (round_body P pay fetch s0) k.
   Proof.
     eapply (rstar_inv P (length (g_soup s0)) s0 (fun t => up t k -> up s0 k /\ hview s0 k <= hview t k)).
     - intros t t' Hi Hp. destruct Hp as [t|t k' i Hlive _|t k' p j _ _]; [exact Hi| |exact Hi].
@@ -846,7 +848,7 @@ Section ThreeRounds.
   Lemma round_end s k B Bv :
     preach P s -> hon k = true ->
     let s0 := revive_all P s in
-    let s1 := sync_round P pay s in
+    let s1 := sync_round P pay fetch s in
     (forall k', hon k' = true -> dview s0 k' <= B) -> B + 1 < U64 ->
     prop_bound P (g_soup s0) Bv -> up s1 k ->
     ann_own P s1 k \/
@@ -858,19 +860,19 @@ Section ThreeRounds.
     { unfold s1. rewrite sync_round_body. fold s0.
       eapply (rstar_inv P (length (g_soup s0)) s0 (fun t => RInv P (g_soup s0) t /\ JI P s0 k Bv t)).
       - intros t t' [HR HJ] Hp. split; [eapply RInv_prim; eassumption|].
-        eapply (JI_prim P HP pay s0 k Bv B t t'); eassumption.
+        eapply (JI_prim P HP pay fetch s0 k Bv B t t'); eassumption.
       - split; [apply RInv_start; assumption|]. intros _. right; right. reflexivity.
       - apply round_body_star. }
     destruct HJ as [HR HJ]. destruct (HJ Hup) as [H|[[H1 H2]|H]].
     - left. exact H.
     - destruct (Z.eq_dec (hview s1 k) (hview s0 k)) as [E|NE]; [|right; auto].
-      left. pose proof (round_retransmits P pay s k Hr Hk Hup E) as Hre.
-      destruct (round_cert_bound P HP pay s0 s1 k B Hr0 HR HB Hk Hup) as (_ & _ & Hjb).
+      left. pose proof (round_retransmits P pay fetch s k Hr Hk Hup E) as Hre.
+      destruct (round_cert_bound P HP pay fetch s0 s1 k B Hr0 HR HB Hk Hup) as (_ & _ & Hjb).
       apply (retransmitted_announces P s1 k); try assumption.
       + apply sync_round_reach; exact Hr.
       + intros j Ej. specialize (Hjb j Ej). lia.
-    - left. pose proof (round_retransmits P pay s k Hr Hk Hup H) as Hre.
-      destruct (round_cert_bound P HP pay s0 s1 k B Hr0 HR HB Hk Hup) as (_ & _ & Hjb).
+    - left. pose proof (round_retransmits P pay fetch s k Hr Hk Hup H) as Hre.
+      destruct (round_cert_bound P HP pay fetch s0 s1 k B Hr0 HR HB Hk Hup) as (_ & _ & Hjb).
       apply (retransmitted_announces P s1 k); try assumption.
       + apply sync_round_reach; exact Hr.
       + intros j Ej. specialize (Hjb j Ej). lia.
@@ -893,9 +895,9 @@ Section ThreeRounds.
      honest node is at least in the view any honest node was running in at the start. *)
   Theorem catch_up_three_rounds s h k :
     preach P s ->
-    let s1 := sync_round P pay s in
-    let s2 := sync_round P pay s1 in
-    let s3 := sync_round P pay s2 in
+    let s1 := sync_round P pay fetch s in
+    let s2 := sync_round P pay fetch s1 in
+    let s3 := sync_round P pay fetch s2 in
     (forall k', hon k' = true -> up s1 k' /\ up s2 k') ->
     (forall k', hon k' = true -> dview s k' + 4 < U64) ->
     hon h = true -> hon k = true -> up s h -> up s3 k ->
@@ -926,19 +928,19 @@ Section ThreeRounds.
     (* an announcement of a view >= B0 by the end of round 2 settles it *)
     assert (Hfin : forall V, B0 <= V -> (V = 0 \/ announced P s2 V) -> hview s h <= hview s3 k).
     { intros V HV [E0|Ha]; [lia|].
-      pose proof (announced_catch_up P pay s2 V k Ha Hk Hupk) as Hc. fold s3 in Hc. unfold hview in *. lia. }
+      pose proof (announced_catch_up P pay fetch s2 V k Ha Hk Hupk) as Hc. fold s3 in Hc. unfold hview in *. lia. }
     destruct (HNS hm Hhmh) as [Hup1 Hup2].
     (* round 1 *)
     assert (HPB0 : prop_bound P (g_soup s0) (B0 + 1)).
     { apply (prop_bound_of s0 (g_soup s0) B0 Hr0); [|exact HB0].
       intros m Hin. destruct (RInv_start P HP s0 Hr0) as (_ & _ & HF). apply (fi_soup _ _ _ HF m Hin). }
-    pose proof (round_view_mono s0 hm) as Hmono1. fold (sync_round P pay s) in Hmono1.
-    change (round_body P pay s0) with s1 in Hmono1. destruct (Hmono1 Hup1) as [_ Hm1].
+    pose proof (round_view_mono s0 hm) as Hmono1. fold (sync_round P pay fetch s) in Hmono1.
+    change (round_body P pay fetch s0) with s1 in Hmono1. destruct (Hmono1 Hup1) as [_ Hm1].
     destruct (round_end s hm B0 (B0 + 1) Hr Hhmh HB0 ltac:(lia) HPB0 Hup1) as [Ha1|(Hp1 & Hle1 & Hne1)].
     { (* announced at the end of round 1 *)
       fold s1 in Ha1. apply (Hfin (hview s1 hm)); [lia|].
       destruct Ha1 as [E|Ha]; [left; exact E|right].
-      eapply (announced_mono P pay); [exact Ha|apply round_soup|lia]. }
+      eapply (announced_mono P pay fetch); [exact Ha|apply round_soup|lia]. }
     fold s1 s0 in Hp1, Hle1, Hne1.
     assert (Hv1 : hview s1 hm = B0 + 1) by lia.
     (* round 2: nobody was stopped, so the round starts at s1 itself *)
@@ -949,12 +951,12 @@ Section ThreeRounds.
     assert (HB1 : forall k', hon k' = true -> dview (revive_all P s1) k' <= B0 + 1).
     { intros k' Hk'. rewrite Hid. destruct (HNS k' Hk') as [Hu1 _].
       rewrite (up_dview s1 k' Hr1 Hk' Hu1).
-      destruct (round_cert_bound P HP pay s0 s1 k' B0 Hr0 HR1 HB0 Hk' Hu1) as (Hb & _). exact Hb. }
+      destruct (round_cert_bound P HP pay fetch s0 s1 k' B0 Hr0 HR1 HB0 Hk' Hu1) as (Hb & _). exact Hb. }
     assert (HPB1 : prop_bound P (g_soup (revive_all P s1)) (B0 + 1)).
     { rewrite Hid. apply (prop_bound_of s0 (g_soup s1) B0 Hr0); [|exact HB0].
       destruct HR1 as (_ & _ & HF). exact (fi_soup _ _ _ HF). }
     pose proof (round_view_mono (revive_all P s1) hm) as Hmono2.
-    change (round_body P pay (revive_all P s1)) with s2 in Hmono2. destruct (Hmono2 Hup2) as [_ Hm2].
+    change (round_body P pay fetch (revive_all P s1)) with s2 in Hmono2. destruct (Hmono2 Hup2) as [_ Hm2].
     rewrite Hid in Hm2.
     destruct (round_end s1 hm (B0 + 1) (B0 + 1) Hr1 Hhmh HB1 ltac:(lia) HPB1 Hup2) as [Ha2|(Hp2 & Hle2 & Hne2)].
     - fold s2 in Ha2. apply (Hfin (hview s2 hm)); [lia|]. exact Ha2.
